@@ -2,7 +2,7 @@
 (* configurations of the bounded instance:
      one node  "t0.a":            2 kinds x 8 event sets x 5 starts          =  80
      two nodes "t0.a" + "t1.a" (same short algorithm name, different package)
-            or "t0.a" + "t1.b":   2 tags x 3 kind pairs x 6 event-set pairs x 2 starts = 72 *)
+            or "t0.a" + "t1.b":   2 tags x 3 kind pairs x 7 event-set pairs x 2 starts = 84 *)
 EXTENDS MomentFire
 Noon == 43200
 W(n)  == [k |-> "dow", n |-> n, t |-> Noon]
@@ -19,7 +19,9 @@ Kinds == {"task", "analysis"}
 N(k, es) == [kind |-> k, events |-> es]
 Configs1 == { [start |-> s, nodes |-> ("t0.a" :> N(k, es))] : s \in Starts, k \in Kinds, es \in EventSets }
 
-EventPairs == { <<{B}, {B}>>, <<{B}, {B, W(2)}>>, <<{B, W(2)}, {B}>>, <<{W(2)}, {W(4)}>>, <<{B}, {M(15)}>>, <<{B, M(1)}, {B}>> }
+Late(n) == [k |-> "dow", n |-> n, t |-> 86370]     \* 23:59:30: a second defer pass on the day of W(n)'s moment
+EventPairs == { <<{B}, {B}>>, <<{B}, {B, W(2)}>>, <<{B, W(2)}, {B}>>, <<{W(2)}, {W(4)}>>, <<{B}, {M(15)}>>, <<{B, M(1)}, {B}>>,
+                <<{W(2)}, {Late(2)}>> }
 KindPairs  == { <<"task", "task">>, <<"task", "analysis">>, <<"analysis", "task">> }
 Starts2    == { DayIndex(2024, 2, 26) * DAY, DayIndex(2024, 2, 28) * DAY + Noon }
 Configs2 == { [start |-> s, nodes |-> ("t0.a" :> N(kp[1], ep[1]) @@ tag :> N(kp[2], ep[2]))] :
